@@ -45,6 +45,9 @@ type LifeScenario struct {
 type RoundSpec struct {
 	UseBind   bool  `json:"use_bind"`
 	TimeoutNs int64 `json:"timeout_ns"`
+	// BindCtx (UseBind): "bg" - Bind is given context.Background(), only DoListen
+	// the round's context: the connections live under the context of the serving call
+	BindCtx string `json:"bind_ctx,omitempty"`
 }
 
 // CtlOp is one controller step.
@@ -64,7 +67,8 @@ type roundRec struct {
 }
 
 func (s *LifeScenario) Setup(k *sim.Kernel) {
-	svc, _ := buildService(s.Service, s.Scripts)
+	svc, regErrs := buildService(s.Service, s.Scripts)
+	reportRegErrs(k, s.Service, regErrs)
 	s.svc = svc
 	for range s.Rounds {
 		if s.CancelHow != "" {
@@ -91,7 +95,11 @@ func (s *LifeScenario) Setup(k *sim.Kernel) {
 			var err error
 			to := time.Duration(rd.TimeoutNs)
 			if rd.UseBind {
-				err = svc.Bind(s.ctxs[r], s.Service.Address)
+				bctx := s.ctxs[r]
+				if rd.BindCtx == "bg" {
+					bctx = context.Background()
+				}
+				err = svc.Bind(bctx, s.Service.Address)
 				sim.Rec("bind.return", mustJSON(roundRec{r, describeErr(err)}))
 				if err == nil {
 					err = svc.DoListen(s.ctxs[r], to)
@@ -770,6 +778,10 @@ func genLifeClient(g *Gen, s *LifeScenario, cid *int, simple bool) ClientSpec {
 				if g.Pct(30) {
 					s.Scripts[*cid] = Script{Actions: []Action{{Op: "sleep", N: g.IntN(3000)}, {Op: "reply", Params: g.ParamsObject(0)}}}
 				}
+				if g.Pct(4) {
+					// a "Quit" method: the handler itself asks the service to stop
+					s.Scripts[*cid] = Script{Actions: []Action{{Op: "shutdown"}, {Op: "reply", Params: g.ParamsObject(0)}}}
+				}
 			} else {
 				s.Scripts[*cid] = genScript(g, func() int { return g.IntN(2) })
 			}
@@ -844,6 +856,13 @@ func genServeCtx(g *Gen, prop string, tier string) *LifeScenario {
 	s := &LifeScenario{Prop: prop, Config: genConfig(g), Scripts: map[int]Script{}, Cancels: true}
 	s.Service = genService(g, 1+g.IntN(2), "unix:@servectx")
 	s.Rounds = []RoundSpec{{UseBind: g.Pct(50)}}
+	if s.Rounds[0].UseBind && g.Pct(40) {
+		s.Rounds[0].BindCtx = "bg"
+	}
+	if prop == "C15" {
+		// with an idle timeout: once the connections are gone the service stops by itself
+		s.Rounds[0].TimeoutNs = int64(1+g.IntN(50)) * 1e6
+	}
 	s.CancelHow = g.Pick("expire", "expire", "sim-cancel", "")
 	nClients := 1 + g.IntN(3)
 	s.Ctl = [][]CtlOp{{{Wait: g.Pick(sf("accepted:%d", nClients), sf("accepted:%d,quiescent", nClients), sf("accepted:%d,sleep:%d", nClients, g.IntN(3000)), "accepted:1"), Op: "cancel", Arg: 0}}}
@@ -884,6 +903,9 @@ func genC14(seed uint64, tier string) Scenario {
 	}
 	for r := 0; r < nRounds; r++ {
 		s.Rounds = append(s.Rounds, RoundSpec{UseBind: g.Pct(50)})
+		if s.Rounds[r].UseBind && g.Pct(30) {
+			s.Rounds[r].BindCtx = "bg"
+		}
 	}
 	var ops []CtlOp
 	second := g.Pct(15)
@@ -992,6 +1014,9 @@ func genC14(seed uint64, tier string) Scenario {
 }
 
 func genC15(seed uint64, tier string) Scenario {
+	if g0 := NewGen(seed, 0xC15A); g0.IntN(24) == 0 {
+		return genServeCtx(g0, "C15", tier)
+	}
 	g := NewGen(seed, 0xC15)
 	s := &LifeScenario{Prop: "C15", Config: genConfig(g), Scripts: map[int]Script{}}
 	if g.Pct(50) {
